@@ -48,8 +48,17 @@ def run(mods, final, emit, config):
     from vlib import refreader
     t0 = time.monotonic()
     smtlib.collect_information(final)
-    pickled = pickle.dumps(final)
-    base = pickle.loads(pickled)
+    # The candidates are built as ddSMT builds them (input and proposal go
+    # through pickle).  If that transport itself fails, the proposal is
+    # applied directly: whether the result is a fixed point of the enabled
+    # mutators does not depend on how ddSMT ships its data around.
+    transport_failures = 0
+    try:
+        pickled = pickle.dumps(final)
+        base = pickle.loads(pickled)
+    except Exception:  # noqa
+        transport_failures += 1
+        base = final
     limit = config.get('sweep_limit', 20000)
     plans = []  # (label, instance, max_depth)
     for cls in enabled_classes(mods):
@@ -81,7 +90,11 @@ def run(mods, final, emit, config):
                 if tested >= limit:
                     break
                 try:
-                    simp2 = pickle.loads(pickle.dumps(simp))
+                    try:
+                        simp2 = pickle.loads(pickle.dumps(simp))
+                    except Exception:  # noqa
+                        transport_failures += 1
+                        simp2 = simp
                     cand = mutator_utils.apply_simp(base, simp2)
                     ok = checker.check_exprs(cand)
                 except Exception as e:  # noqa
@@ -117,6 +130,7 @@ def run(mods, final, emit, config):
          per_mutator=per_mut,
          accepted=accepted,
          exceptions=exceptions,
+         transport_failures=transport_failures,
          truncated=tested >= limit,
          nodes=nodes.count_nodes(final),
          dur=time.monotonic() - t0)
